@@ -17,9 +17,11 @@ open Conc Generated
 /-- the class instantiated by `TCPServer.run` handles requests one at a time, and its handler
     class processes the request inline — `protocol.handle_request` is called directly on the
     server's thread — starting nothing concurrent on the way (calls followed through every class
-    of comm/server.py) -/
+    of comm/server.py); the handling object is built anew for every connection and nothing on that
+    path stores into an attribute of a longer-lived object (no state outlives a request) -/
 theorem server_is_sequential : kindOfString serverKind = .sequential ∧ serverClass = "socketserver.TCPServer" ∧
-    handlerInline = true ∧ handlerSpawns = [] ∧ deliveryDirect = true := by
+    handlerInline = true ∧ handlerSpawns = [] ∧ deliveryDirect = true ∧
+    handlerPerConnection = true ∧ handlerStateWrites = [] := by
   decide
 
 /-- the log seen as (closed blocks, block in progress) -/
